@@ -265,6 +265,16 @@ def item_diff(a, b):
     if a['kw'] != b['kw']:
         return a['cls'], 'keyword-changed'
     d = toks_diff(a['cls'], a['params'], b['params'])
+    if d:
+        inw = {t.upper() for t in a['params']}
+        if any(t.upper()[:4] in KEYWORDS and t.upper() not in inw for t in b['params']) or \
+                (b['params'] and b['params'][-1] == '='):
+            d = 'continuation-lost'        # the next instruction was swallowed as continuation line
+        elif a['cls'] in ('UNIT', 'BASF'):
+            if any(',' in t for t in b['params']):
+                d = 'thousands-separator'
+            else:
+                d = re.sub(r'parameter-\d+-', 'value-', d)
     return (a['cls'], d) if d else None
 
 
@@ -431,6 +441,8 @@ def evaluate(ctx, cases, stream=None):
             ctx.count(['c01', case['lines']], nontrivial=False, tags=['skipped:parse-incomplete', f'skipped-at:{errkw}'])
             ctx.extra.setdefault('skipped_parse_incomplete', 0)
             ctx.extra['skipped_parse_incomplete'] += 1
+            sk = ctx.extra.setdefault('skipped_at_keyword', {})
+            sk[errkw] = sk.get(errkw, 0) + 1
             results.append(None)
             continue
         cout = content(out)
@@ -452,8 +464,7 @@ def evaluate(ctx, cases, stream=None):
             if d and d not in seen:
                 seen.add(d)
                 ctx.fail(f'C01|{d[0]}|{d[1]}',
-                         f'line class {d[0]}: {d[1]} — input {" ".join(a["toks"][0] if isinstance(a["toks"][0], list) else a["toks"])!r}, '
-                         f'written {("(nothing)" if b is None else " ".join(b["toks"][0] if isinstance(b["toks"][0], list) else b["toks"]))!r}',
+                         f'line class {d[0]}: {d[1]} — input {show(a)!r}, written {("(nothing)" if b is None else show(b))!r}',
                          dict(case=dict(lines=minimal_lines(case, a)), stream='roundtrip', expected=a['toks'],
                               actual=None if b is None else b['toks']))
             # correspondence request
@@ -481,14 +492,21 @@ def evaluate(ctx, cases, stream=None):
         flat_b = [t for l in bt for t in l]
         payload = dict(case=dict(lines=minimal_lines(case, a)), stream=st, expected=r.get('spec'), actual=bt, model=mt)
         # model = spec is a theorem inside its hypotheses; outside them the class is a recorded finding
-        if r.get('spec_ok') is False and r.get('hyp') is True:
-            raise core.LeanError(f'model differs from spec inside the hypotheses of the theorem: {rq} -> {r}')
+        if r.get('spec_ok') is False and r.get('hyp') is True and not ctx.broken:
+            ctx.fail(f'C01|{st}|{a["cls"]}|model-differs-from-spec',
+                     f'the model\'s written line does not meet the specification although the hypotheses of the theorem hold: {r}',
+                     payload, kind='correspondence')
         if a['kind'] == 'atom' and any(v is None for v in b['vals']):
             continue    # fused columns etc.: already reported by the property comparison
         if not flat_same(flat_m, flat_b):
             ctx.fail(f'C01|{st}|{a["cls"]}|model', f'{a["cls"]}: written line {bt} differs from the model\'s {mt}', payload,
                      kind='correspondence')
     return results
+
+
+def show(it):
+    t = it['toks']
+    return ' / '.join(' '.join(x) for x in t) if isinstance(t[0], list) else ' '.join(t)
 
 
 def minimal_lines(case, item):
@@ -595,6 +613,9 @@ def rand_atom_line(rng, name, sfac, aniso, hydrogen=False, qpeak=False):
         us = [f'{rng.uniform(0.011, 0.2):.5f}' for _ in range(3)] + [f'{rng.uniform(-0.03, 0.03):.5f}' for _ in range(3)]
         if rng.random() < 0.1:
             us[3] = us[4] = '0.00000'
+        if rng.random() < 0.15:     # a U component coupled to a free variable (10m+p)
+            k = rng.randrange(6)
+            us[k] = f'{10 * rng.choice([2, 3, -2, 1]) + float(us[k]):.5f}'
     else:
         us = [rng.choice([f'{rng.uniform(0.011, 0.2):.5f}', f'{rng.uniform(0.011, 0.2):.4f}', '21.05000', '-1.20000', '0.04'])]
     return name + sep() + str(sfac) + sep() + sep().join(xyz) + sep() + sof + sep() + sep().join(us)
@@ -631,7 +652,7 @@ def make_file(rng, instr_pool=None, n_instr=None):
         for e in rng.sample(els, rng.randint(1, min(2, len(els)))):
             form = rng.choice([2, 3, 4])
             lines.append(f'DISP {e} ' + ' '.join([f'{rng.uniform(-0.3, 0.3):.5f}', f'{rng.uniform(0.001, 2):.5f}', f'{rng.uniform(5, 900):.2f}'][:form - 1]))
-    unit = [rng.choice(['4', '8', '12', '24', '36', '48', '96', '0.5', '2.5', '1200', '1234567', '13.33', '7.125', '100000'])
+    unit = [rng.choice(['4', '8', '12', '24', '36', '48', '96', '0.5', '2.5', '1200', '1234567', '13.33', '7.125', '100000', '1234.5678'])
             for _ in els]
     lines.append('UNIT ' + ' '.join(unit))
     used = set()
@@ -694,7 +715,7 @@ FIXED_CASES = [
                 'C1 1 0.1 0.2 0.3 11.0 0.05', 'C2 1 -10.25 0.2 0.3 21.0 0.05', 'HKLF 4', 'END',
                 'Q1 1 0.1234 0.2345 0.3456 11.00000 0.05 1.23'], tags=['fixed']),
     dict(lines=['TITL w2', 'CELL 0.71073 10 11 12 90 95 90', 'ZERR 4 0.001 0.001 0.001 0 0.01 0', 'LATT 1',
-                'SFAC C', 'UNIT 4', 'SIZE 0.1 0.2', 'ACTA NOHKL', 'FVAR 1.0',
+                'SFAC C', 'UNIT 4', 'SIZE 0.1 0.2', 'ACTA NOHKL', 'OMIT -3 =', '   55.5', 'TEMP -120', 'FVAR 1.0',
                 'C1 1 0.123456 0.2 0.3 11.0 0.05', 'HKLF 4', 'END',
                 'Q1 1 0.123456 0.2345 0.3456 11.00000 0.05 1.234', 'Q2 1 0.1 0.2 0.3 11.00000 0.04 1.234'], tags=['fixed']),
 ]
